@@ -426,11 +426,17 @@ func TestVerifC05Proxy(t *testing.T) {
 	defer rec.Close()
 	rng := kit.Rand("c05proxy")
 	n := kit.Tier(150, 3000)
-	modes := []string{"client-finishes-first", "covert-finishes-first", "reply-then-rst", "close-immediately", "client-rst", "dial-refused"}
+	modes := []string{"client-finishes-first", "covert-finishes-first", "reply-then-rst", "close-immediately", "client-rst", "dial-refused", "client-rst-slow-covert"}
 	for i := 0; i < n; i++ {
 		mode := modes[i%len(modes)]
 		upN := []int{0, 1, 8, 4096, 70000}[rng.Intn(5)]
 		downN := []int{0, 1, 8, 4096, 70000}[rng.Intn(5)]
+		if mode == "client-rst-slow-covert" {
+			// a large upload to a covert that is slow to read (the kernel's send queue holds bytes the station
+			// has already written and counted) and then a hard error on the client side; no reply bytes, so
+			// nothing can be unread on the station's side of the covert connection when it closes
+			upN, downN = 4<<20, 0
+		}
 		label := fmt.Sprintf("mode=%s up=%d down=%d", mode, upN, downN)
 		rec.CaseCheap(label)
 
@@ -466,6 +472,11 @@ func TestVerifC05Proxy(t *testing.T) {
 				covertGot = buf
 				c.Write(down)
 				return
+			case "client-rst-slow-covert":
+				time.Sleep(300 * time.Millisecond)
+				b, _ := io.ReadAll(c)
+				covertGot = b
+				return
 			default:
 				c.Write(down)
 				b, _ := io.ReadAll(c)
@@ -488,7 +499,7 @@ func TestVerifC05Proxy(t *testing.T) {
 		}
 		atEnd := kit.EndBlock
 		switch mode {
-		case "client-rst":
+		case "client-rst", "client-rst-slow-covert":
 			segs = append(segs, kit.Seg{Err: kit.NetOpErr("read", kit.TCPAddr("192.0.2.10", 443), kit.TCPAddr("203.0.113.77", 50123), kit.SysErr("read", syscall.ECONNRESET))})
 		case "client-finishes-first":
 			atEnd = kit.EndEOF
@@ -553,6 +564,12 @@ func TestVerifC05Proxy(t *testing.T) {
 		}
 		if mode != "dial-refused" && !bytes.HasPrefix(up, covertGot) {
 			rec.Violation("relay:up:not-a-prefix", "covert received bytes that are not a prefix of what the client sent", map[string]interface{}{"case": label})
+		}
+		if mode == "client-rst-slow-covert" && int64(len(covertGot)) != ts.BytesUp {
+			// every byte the station reports as relayed was accepted by the covert's connection before the
+			// station closed it (no unread data on the station's side): a covert that keeps reading gets them all
+			rec.Violation("relay:up:written-bytes-destroyed-at-teardown", "bytes the station had written to (and counted for) the covert never reached it although the covert kept reading",
+				map[string]interface{}{"case": label, "reported_BytesUp": ts.BytesUp, "covert_received": len(covertGot)})
 		}
 		switch mode {
 		case "client-finishes-first", "covert-finishes-first":
